@@ -12,7 +12,7 @@ import (
 
 func TestJSONRoundTrip(t *testing.T) {
 	const check = "json_roundtrip"
-	stats.Rule(check, "shapes and values as in binary_roundtrip; for every JSON-expressible shape (map keys that encode to JSON strings, no coded byte arrays by value) and value (no invalid UTF-8) for which JSONEncode succeeds, JSONDecode of the document and MapDecode of the unmarshalled document must succeed and yield a model-equal value (NaN == NaN, omitempty zero == absent, times by saturated stamp); validation off and on. Distinct by (shape, value); non-trivial as in binary_roundtrip and JSONEncode succeeded")
+	stats.Rule(check, "shapes and values as in binary_roundtrip; for every JSON-expressible shape (map keys that encode to JSON strings, no pointers to scalars, no Token objects) and value (no invalid UTF-8) for which JSONEncode succeeds, JSONDecode of the document and MapDecode of the unmarshalled document must succeed and yield a model-equal value (NaN == NaN, omitempty zero == absent, times by saturated stamp); validation off and on. Distinct by (shape, value); non-trivial as in binary_roundtrip and JSONEncode succeeded")
 	rapid.Check(t, func(rt *rapid.T) {
 		c := serixgen.NewCase(rt, cfg())
 		mode := serixgen.ValidMode
@@ -26,7 +26,16 @@ func TestJSONRoundTrip(t *testing.T) {
 			labels = append(labels, "shape:"+f)
 		}
 		if ok, why := serixgen.JSONExpressible(c.Root); !ok {
-			stats.Case(check, false, "", nil, "excluded_shape:"+why)
+			// outside the property (the form cannot express the value); whether JSONEncode refuses cleanly is only counted
+			ls := []string{"excluded_shape:" + why}
+			if serixgen.RefEncode(c.Root, v, false).Reject == "" {
+				if je := c.JSONEncode(v, false); je.Panic != nil {
+					ls = append(ls, "excluded_shape_jsonencode_panicked")
+				} else if je.Err != nil {
+					ls = append(ls, "excluded_shape_jsonencode_refused")
+				}
+			}
+			stats.Case(check, false, "", nil, ls...)
 			return
 		}
 		if serixgen.HasInvalidUTF8(c.Root, v) {
@@ -44,8 +53,7 @@ func TestJSONRoundTrip(t *testing.T) {
 			}
 			je := c.JSONEncode(v, validate)
 			if je.Panic != nil {
-				labels = append(labels, "jsonencode_panicked")
-				continue
+				violation(rt, check, c, v, ex, "JSONEncode panicked on a value of a JSON-expressible shape that has a binary encoding: %v", je.Panic)
 			}
 			if je.Err != nil {
 				labels = append(labels, "jsonencode_refused")
